@@ -428,7 +428,10 @@ def end_to_end(s):
     # q-points, 1 and 10 atoms)
     cases += [("synthetic", {"seed": s.seed + 1, "system": "orthorhombic", "static_order": "shuffled", "static_nv": 7}, "synthetic"),
               ("synthetic", {"seed": s.seed + 2, "system": "monoclinic", "gamma_first": False, "nq": 1, "na": 1, "nv": 4, "static_order": "ascending"}, "synthetic"),
-              ("synthetic", {"seed": s.seed + 3, "system": "orthorhombic", "nq": 8, "na": 10, "nv": 12, "static_nv": 4, "lattice": True}, "synthetic")]
+              ("synthetic", {"seed": s.seed + 3, "system": "cubic", "nq": 8, "na": 3, "nv": 12, "static_nv": 4, "lattice": True}, "synthetic"),
+              ("synthetic", {"seed": s.seed + 5, "system": "cubic", "nq": 1, "na": 10, "nv": 5, "lattice": False}, "synthetic"),
+              # a SQUARE (T, V) grid: NT + 4 temperature rows = NTV volumes (an axis picked by its length goes wrong exactly there)
+              ("synthetic", {"seed": s.seed + 4, "system": "orthorhombic", "settings": {"qha": {"settings": {"NT": 17, "DT": 100, "DT_SAMPLE": 100, "NTV": 21}}}}, "synthetic")]
     if s.tier == "thorough":
         cases += [("synthetic", {"seed": s.seed + 3 + i, "system": sy, "lattice": bool(i % 2), "nq": 1 + i % 4, "na": 1 + i % 3, "nv": 6 + i % 5}, "synthetic")
                   for i, sy in enumerate(["cubic", "trigonal7", "orthorhombic", "monoclinic"] * 3)]
